@@ -786,7 +786,7 @@ def worker_mdcase(case, root):
                 o = {"file": os.path.relpath(os.path.realpath(t.filename), os.path.realpath(base)), "source": t.source,
                      "code_tags": sorted(set(re.findall(r"@(d\d)", t.code))), "list_defs": t.list_defs(),
                      "render_unicode": outcome(lambda: t.render_unicode(), root), "render": outcome(lambda: t.render(), root)}
-                if u == "/main.html":
+                if u.replace("/", "") == "main.html":
                     o["get_def"] = outcome(lambda: t.get_def("dm").render_unicode(), root)
                 return o
             try:
@@ -2086,9 +2086,10 @@ def replay(ctx, data):
                     print("hashseed %s: %s: expected %r got %r" % (s_, what, want, got))
             try:
                 import posixpath
-                print("model: lookupFile serves /main.html from", ctx.driver().ask("p8 search %s %s %s" % (
+                o = ctx.driver().ask("p8 search %s %s %s" % (
                     L(["/r/" + d for d in c["order"]]), L(["/r/%s/main.html" % d for d in c["present"] if "/main.html" in c["present"][d]]),
-                    enc("/main.html"))))
+                    enc("/main.html")))
+                print("model: lookupFile(%r) serves /main.html from %s" % (c["order"], o if o == "none" else dec(o)))
             except Exception as e:        # noqa: BLE001
                 print("model not available:", e)
             return ok
